@@ -36,8 +36,4 @@ Definition check_roundtrip (c : case) : bool :=
 Definition check_resave (c : case) : bool := list_eqb xelem_eqb (k_doc c) (k_doc2 c).
 Definition check_case (c : case) : bool :=
   check_save c && check_load_is_denotation c && check_roundtrip c && check_resave c.
-Definition premises (c : case) : bool :=
-  match written (k_schema c) (k_cas c) with
-  | Ok ca => wf_xmib (k_schema c) (fst ca) (snd ca)
-  | _ => false
-  end.
+Definition premises (c : case) : bool := wf_inb (k_schema c) (k_cas c).
